@@ -202,6 +202,9 @@ pub fn check(plans: &[Plan], recs: &[RunRec]) -> Outcome {
         if (g.tid.is_none() && !g.inline) || g.refused {
             continue;
         }
+        if v.pos.as_ref().is_none_or(|p| p.legal_moves().is_empty()) {
+            continue; // the property is about positions with a legal move
+        }
         if warm {
             out.stats.inc("reach.warm_cache_search");
         }
